@@ -770,6 +770,17 @@ func cmdCampaign(args []string) {
 							rec.RunErr += " trace:" + terrs
 						}
 						runsTrace[j.ci][j.vi] = truns
+						// the same inputs once more, tracing switched on by the first action of each run (ConfLateTrace.tla)
+						lo, _, lto := runCmd(rec.Dir, 120*time.Second, []string{"VH_LATETRACE=1"}, filepath.Join(rec.Dir, "p"), ip)
+						if lruns, _ := splitRuns(lo); !lto && len(lruns) == len(truns) {
+							lateMu.Lock()
+							for ii := range truns {
+								if len(truns[ii]) <= 400 && ii%3 == 0 {
+									lateObs = append(lateObs, lateRec{Case: cases[j.ci].ID, Variant: v.Name, Run: ii, Full: classifyLines(truns[ii]), Late: classifyLines(lruns[ii])})
+								}
+							}
+							lateMu.Unlock()
+						}
 					}
 				}
 				if !cfg.keep {
@@ -787,6 +798,16 @@ func cmdCampaign(args []string) {
 	close(jobs)
 	wg.Wait()
 
+	if cfg.trace {
+		per := (len(lateObs) + 15) / 16
+		for s := 0; per > 0 && s*per < len(lateObs); s++ {
+			hi := (s + 1) * per
+			if hi > len(lateObs) {
+				hi = len(lateObs)
+			}
+			writeJSON(filepath.Join(cfg.out, fmt.Sprintf("late-%02d.json", s)), lateObs[s*per:hi])
+		}
+	}
 	// TLA-side case descriptions
 	tc := make([]tlaCase, len(cases))
 	for i, c := range cases {
@@ -1045,4 +1066,45 @@ func (c *Case) TLACase() tlaCase {
 		t.Texts = append(t.Texts, strings.TrimSpace(r.Lhs+" -> "+strings.Join(r.Rhs, " ")))
 	}
 	return t
+}
+
+// Late tracing: one run with IsTrace on from the start and one in which the first action switches it on.
+type lateLine struct {
+	K string `json:"k"` // trace | R | other
+	S string `json:"s"`
+}
+
+type lateRec struct {
+	Case    string     `json:"case"`
+	Variant string     `json:"variant"`
+	Run     int        `json:"run"`
+	Full    []lateLine `json:"full"`
+	Late    []lateLine `json:"late"`
+}
+
+var (
+	lateMu  sync.Mutex
+	lateObs []lateRec
+)
+
+// classifyLines drops what nested parses print and tells trace lines, action log lines and the rest apart.
+func classifyLines(lines []string) []lateLine {
+	res := []lateLine{}
+	nested := false
+	for _, ln := range lines {
+		switch {
+		case ln == "NESTBEGIN":
+			nested = true
+		case ln == "NESTEND":
+			nested = false
+		case nested:
+		case parseTraceLine(ln) != nil:
+			res = append(res, lateLine{"trace", asciiName(ln)})
+		case strings.HasPrefix(ln, "R "):
+			res = append(res, lateLine{"R", ln})
+		default:
+			res = append(res, lateLine{"other", asciiName(ln)})
+		}
+	}
+	return res
 }
